@@ -20,6 +20,7 @@ import (
 	"fmt"
 	"io"
 	"os"
+	"path/filepath"
 	"reflect"
 	"strconv"
 	"strings"
@@ -664,6 +665,11 @@ func runPerrCase(ctx *Ctx, m *common.Model, c CCase, idx int) *common.Violation 
 // ---- the family ------------------------------------------------------------------------------
 
 func clientFamily(ctx *Ctx) error {
+	if os.Getenv("VERIF_DRIVER") == "" { // replay mode of ./check: use the driver of the tree we were started from
+		if p := filepath.Join(ctx.Verif, "lean", ".lake", "build", "bin", "driver"); fileExists(p) {
+			common.DriverPath = p
+		}
+	}
 	m, err := common.StartModel()
 	if err != nil {
 		return err
@@ -737,6 +743,11 @@ func clientFamily(ctx *Ctx) error {
 		idx++
 	}
 	return nil
+}
+
+func fileExists(p string) bool {
+	_, err := os.Stat(p)
+	return err == nil
 }
 
 func runClientCaseQuiet(ctx *Ctx, m *common.Model, c CCase) *common.Violation {
